@@ -387,4 +387,155 @@ theorem cnt_readMore (caught : Bool) (b : Bytes) (f : Full) (hp : ParsedOk2 b f.
       exact (cnt_catch (cnt_readMapsOutG MAPS_GUARDED s)).mono (by omega)
   refine (cnt_bind (cnt_guarded caught hm) (C := 1 + 4 * (b.size / 108)) (fun _ _ => cnt_moreTail b f _ _ hp)).mono (by omega)
 
+/-! ### errors of the third group are values -/
+
+theorem noErr_outcomeToM {α : Type} (o : Outcome α) : NoErr (outcomeToM o) := by
+  intro e h; cases o <;> cases h
+
+theorem noErr_getRegs (ctx : Gen.Regs.Ctx) (st : Regs.State) : ∀ ns : List String, NoErr (getRegs ctx st ns) := by
+  intro ns
+  induction ns with
+  | nil => exact noErr_pure _
+  | cons n rest ih =>
+    unfold getRegs
+    exact noErr_bind (noErr_outcomeToM _) (fun _ => noErr_bind ih (fun _ => noErr_pure _))
+
+theorem noErr_fmtRegs (ctx : Gen.Regs.Ctx) (st : Regs.State) : ∀ ns : List String, NoErr (fmtRegs ctx st ns) := by
+  intro ns
+  induction ns with
+  | nil => exact noErr_pure _
+  | cons n rest ih =>
+    unfold fmtRegs
+    exact noErr_bind (noErr_outcomeToM _) (fun _ => noErr_bind ih (fun _ => noErr_pure _))
+
+theorem noErr_registersOf (all : Bytes) (e : Endian) (arch : Nat) (range : Option (Nat × Nat)) :
+    NoErr (registersOf all e arch range) := by
+  unfold registersOf
+  split
+  · exact noErr_pure _
+  · split
+    · exact noErr_pure _
+    · refine noErr_bind ?_ (fun _ => noErr_pure _)
+      unfold ctxRegisters
+      dsimp only
+      exact noErr_bind (noErr_outcomeToM _) (fun _ => noErr_bind (noErr_getRegs _ _ _) (fun _ =>
+        noErr_bind (noErr_fmtRegs _ _ _) (fun _ => noErr_pure _)))
+
+theorem noErr_threadRegisters (all : Bytes) (e : Endian) (arch : Nat) : ∀ ts : List Thread, NoErr (threadRegisters all e arch ts) := by
+  intro ts
+  induction ts with
+  | nil => exact noErr_pure _
+  | cons t rest ih =>
+    unfold threadRegisters
+    exact noErr_bind (noErr_registersOf _ _ _ _) (fun _ => noErr_bind ih (fun _ => noErr_pure _))
+
+theorem noErr_tableAt (site : String) (table : List RangeMap.Entry) (n a : Nat) : NoErr (tableAt site table n a) := by
+  unfold tableAt
+  split
+  · exact noErr_pure _
+  · exact noErr_ite (noErr_pure _) (noErr_panic _)
+
+theorem noErr_byAddrIndices (site : String) (n : Nat) : ∀ table : List RangeMap.Entry, NoErr (byAddrIndices site n table) := by
+  intro table
+  induction table with
+  | nil => exact noErr_pure _
+  | cons en rest ih =>
+    obtain ⟨r, i⟩ := en
+    unfold byAddrIndices
+    exact noErr_ite (noErr_bind ih (fun _ => noErr_pure _)) (noErr_panic _)
+
+theorem noErr_probeAll (site : String) (table : List RangeMap.Entry) (n : Nat) : ∀ as : List Nat, NoErr (probeAll site table n as) := by
+  intro as
+  induction as with
+  | nil => exact noErr_pure _
+  | cons a rest ih =>
+    unfold probeAll
+    exact noErr_bind (noErr_tableAt _ _ _ _) (fun _ => noErr_bind ih (fun _ => noErr_pure _))
+
+theorem noErr_unifiedOut (info : Option (List MemInfo)) (maps : Option LinuxMapsX) : NoErr (unifiedOut info maps) := by
+  unfold unifiedOut
+  split
+  · exact noErr_pure _
+  · refine noErr_bind ?_ (fun _ => noErr_bind (noErr_byAddrIndices _ _ _) (fun _ => noErr_bind (noErr_probeAll _ _ _ _) (fun _ => noErr_pure _)))
+    unfold memInfoFromRegions
+    refine noErr_bind (noErr_alloc _ _ _) (fun _ => ?_)
+    split
+    · exact noErr_pure _
+    · exact noErr_panic _
+  · exact noErr_bind (noErr_byAddrIndices _ _ _) (fun _ => noErr_bind (noErr_probeAll _ _ _ _) (fun _ => noErr_pure _))
+
+theorem noErr_stringFromBytesNul (bs : List UInt8) : NoErr (stringFromBytesNul bs) := by
+  unfold stringFromBytesNul
+  dsimp only
+  exact noErr_bind (noErr_ite (noErr_pure _) (noErr_alloc _ _ _)) (fun _ => noErr_pure _)
+
+theorem noErr_modulesOut (os : Encode.Os) (e : Endian) : ∀ ms : List Module, NoErr (modulesOut os e ms) := by
+  intro ms
+  induction ms with
+  | nil => exact noErr_pure _
+  | cons m rest ih =>
+    unfold modulesOut
+    refine noErr_bind ?_ (fun _ => noErr_bind ?_ (fun _ => noErr_bind ih (fun _ => noErr_pure _)))
+    · unfold moduleIds
+      dsimp only
+      refine noErr_bind ?_ (fun _ => noErr_bind ?_ (fun _ => noErr_pure _))
+      · split
+        · exact noErr_alloc _ _ _
+        · exact noErr_pure _
+      · unfold debugFileX
+        split
+        · exact noErr_bind (noErr_stringFromBytesNul _) (fun _ => noErr_pure _)
+        · exact noErr_bind (noErr_stringFromBytesNul _) (fun _ => noErr_pure _)
+        · exact noErr_pure _
+        · exact noErr_pure _
+    · unfold modulePrint
+      split
+      · refine noErr_loopGo _ (fun s i => ?_) _ _ _ _
+        split
+        · exact noErr_pure _
+        · exact noErr_panic _
+      · exact noErr_pure _
+      · exact noErr_bind (noErr_alloc _ _ _) (fun _ => noErr_bind (noErr_alloc _ _ _) (fun _ => noErr_pure _))
+      · exact noErr_bind (noErr_alloc _ _ _) (fun _ => noErr_bind (noErr_alloc _ _ _) (fun _ => noErr_pure _))
+      · exact noErr_pure _
+
+theorem noErr_catchUnwind {α : Type} {x : M α} (h : NoErr x) : NoErr (M.catchUnwind x) := by
+  intro e he
+  unfold M.catchUnwind at he
+  cases hres : x.res with
+  | ok a => rw [hres] at he; cases he
+  | err e' => exact h e' hres
+  | panic p => rw [hres] at he; cases he
+
+theorem readMore_noErr (caught : Bool) (b : Bytes) (f : Full) : NoErr (readMore caught b f) := by
+  rw [readMore_eq]
+  refine noErr_bind (getStream_noErr _ _ _ _) (fun misc => noErr_bind ?_ (fun maps => ?_))
+  · unfold guarded
+    split
+    · exact noErr_catchUnwind (getStream_noErr _ _ _ _)
+    · exact noErr_bind (getStream_noErr _ _ _ _) (fun _ => noErr_pure _)
+  · unfold moreTail
+    dsimp only
+    refine noErr_bind ?_ (fun _ => noErr_bind ?_ (fun _ => noErr_bind (getStream_noErr _ _ _ _) (fun _ =>
+      noErr_bind ?_ (fun _ => noErr_bind ?_ (fun _ => noErr_pure _)))))
+    · split
+      · exact noErr_pure _
+      · exact noErr_bind (noErr_unifiedOut _ _) (fun _ => noErr_pure _)
+    · split
+      · exact noErr_bind (noErr_modulesOut _ _ _) (fun _ => noErr_pure _)
+      · exact noErr_pure _
+    · split
+      · exact noErr_bind (noErr_threadRegisters _ _ _ _) (fun _ => noErr_pure _)
+      · exact noErr_pure _
+    · split
+      · exact noErr_bind (noErr_registersOf _ _ _ _) (fun _ => noErr_pure _)
+      · exact noErr_pure _
+
+theorem readWholeWith_noErr (caught : Bool) (ms : MemSizes) (b : Bytes) : NoErr (readWholeWith caught ms b) := by
+  unfold readWholeWith
+  refine noErr_bind (readFull_noErr ms b) (fun r => ?_)
+  split
+  · exact noErr_pure _
+  · exact noErr_bind (readMore_noErr _ _ _) (fun _ => noErr_pure _)
+
 end MdModel.Dump
